@@ -49,18 +49,9 @@ Variants ==
     [] Format = "onecrl" -> {[strip |-> b, bfirst |-> c, nprops |-> 0] : b \in BOOLEAN, c \in BOOLEAN}
     [] Format = "sst"    -> {[strip |-> FALSE, bfirst |-> FALSE, nprops |-> n] : n \in 0..2}
 
-Wire(set, v) ==
-  CASE Format = "crlset" -> CRLSetWire(set, 6375, v.strip)
-    [] Format = "onecrl" -> OneCRLWire(set, v.strip, v.bfirst)
-    [] Format = "sst"    -> SSTWire(set, v.nprops)
-Parsed(set) ==
-  CASE Format = "crlset" -> CRLSetParsed(set)
-    [] Format = "onecrl" -> OneCRLParsed(set)
-    [] Format = "sst"    -> SSTParsed(set)
-Allowed(set, c) ==
-  CASE Format = "crlset" -> CRLSetAllowed(set, c)
-    [] Format = "onecrl" -> OneCRLAllowed(set, c)
-    [] Format = "sst"    -> SSTAllowed(set, c)
+Wire(set, v)    == WireOf(Format, set, v)
+Parsed(set)     == ParsedOf(Format, set)
+Allowed(set, c) == AllowedOf(Format, set, c)
 
 Case(set, v) ==
   [fmt |-> Format, set |-> set, var |-> v, wire |-> Wire(set, v), parsed |-> Parsed(set),
